@@ -92,6 +92,10 @@ func c04Jobs(tier string) []string {
 	add("or=sw,devs=zkhl,mss=100,ws=2,pwnd=1000,pfix=1,w=300+900,b=1", 2)
 	// our handshake ACK is lost and the peer repeats its SYN-ACK after the connection is up: the
 	// window field of a SYN is never scaled
+	// a receive buffer that is not a multiple of the window-scale unit: the peer fills the scaled
+	// window exactly, a few bytes of real window remain and the field says 0
+	add("or=w,devs=k,mss=1460,ws=2,rcvbuf=70001,pd=71x1000,read=stall,b=0", 1)
+	add("or=w,devs=kob,mss=1460,ws=7,rcvbuf=262147,pd=27x10000,read=stall,b=1", 2)
 	// D31: a segment straddling the right edge and one wholly beyond it in one batch
 	add("or=w,devs=o,mss=1460,ws=-1,rcvbuf=200,pd=150+100,read=stall,b=1", 1)
 	add("or=w,devs=o,mss=1460,ws=-1,rcvbuf=200,pd=150+100+100,read=eager,b=1", 1)
